@@ -68,9 +68,12 @@ impl<'a> TraitImpl<'a> {
     where
         F: Fn(&&'b Field<'_>) -> bool,
     {
+        // A newtype hands its input to its only field whatever that field's options say, so the
+        // field's type parameters are needed even when it is marked `skip`.
+        let is_newtype = fields.is_newtype();
         fields
             .iter()
-            .filter(field_filter)
+            .filter(|f| is_newtype || field_filter(f))
             .collect_type_params_cloned(&Purpose::BoundImpl.into(), declared)
     }
 }
